@@ -12,6 +12,13 @@ pub(crate) fn parse_program(
   source_code: String,
 ) -> Result<ParsedSource, ParseDiagnostic> {
   let syntax = get_syntax(media_type);
+  // deno_ast expects the byte order mark to be stripped by the caller (it
+  // panics in debug builds otherwise, and a second mark would make the text
+  // info and the AST positions disagree).
+  let source_code = match source_code.trim_start_matches('\u{FEFF}') {
+    stripped if stripped.len() != source_code.len() => stripped.to_string(),
+    _ => source_code,
+  };
   deno_ast::parse_program(deno_ast::ParseParams {
     specifier,
     media_type,
